@@ -46,6 +46,9 @@ void verif_factory_hook(void) {
   sdk_out("FACTORYHOOK");
 }
 
+#ifndef RSA_NUM_BYTES
+#define RSA_NUM_BYTES 512
+#endif
 const uint8_t rsa_public_key_bytes[RSA_NUM_BYTES] = {1, 2, 3, 4};
 
 void supla_esp_board_send_channel_values_with_delay(void *srpc) {}
